@@ -64,6 +64,29 @@ CHECKS = {
              'z3. Outside: more than 5 symbolic records.'),
 }
 
+CHECKS.update({
+    'C17': dict(
+        text='Symbolic execution of generate_verification_hash / '
+             'minecraft_sha1_hash_digest with the SHA-1 digest as 20 '
+             'arbitrary bytes (every digest value) and the hashed message '
+             'checked against utf8(id)||secret||key; the hex rendering is '
+             'decided per sign x digit-count class against Java '
+             'BigInteger.toString(16) semantics.',
+        note='Trusted: hashlib computes SHA-1 (uninterpreted); models of '
+             "int.from_bytes / format(n,'x'); z3.  The three published "
+             'vectors are re-checked through the real hashlib each run.'),
+    'C20': dict(
+        text='Symbolic execution of the tracker objects and helper types: '
+             'position apply with symbolic flags and floating-point values '
+             '(z3 FP), map patches with symbolic offsets/pixels and a '
+             'symbolic probe cell, player-list histories with symbolic '
+             'action kinds/uuids/values, record/vector/alias/flag-name laws '
+             'over symbolic fields.',
+        note="Trusted: axiomatised float % (exact fmod), write-log pixel "
+             'buffer, z3.  Outside: histories longer than 3, vector '
+             'components beyond 2^10.'),
+})
+
 NOT_APPLICABLE = {
     'C12': 'quantifies over thread interleavings at lock/queue/send '
            'granularity; the symbolic executor runs one thread and CPython\'s '
